@@ -6,7 +6,9 @@ CONSTANTS
   WriteErrs = {"EPIPE", "RST", "timeout", "other", "closed"}
   ForwardWithErr = TRUE
   DialMayFail = TRUE
+  BufCap = 8
+  BufMode = "private"
 VIEW TraceView
-INVARIANTS PrefixFidelity NothingReadIsLost InFlightOnly CountsMatch BothClosed EndedClosesBoth NoExtraClose GaugeBalanced
+INVARIANTS PrefixFidelity BufferIntegrity NothingReadIsLost InFlightOnly CountsMatch BothClosed EndedClosesBoth NoExtraClose GaugeBalanced
 POSTCONDITION Post
 CHECK_DEADLOCK FALSE
